@@ -35,7 +35,9 @@ Inductive pyv :=
   | VLit (rows : list (list (Z * Z)))                              (* np.array / np.eye of Gaussian integers *)
   | VMat (dim : nat) (terms : list fterm)                          (* formal dim x dim matrix *)
   | VIMat (rows : list (list Z))                                   (* np.zeros((n, n), dtype=int) with item assignment *)
-  | VExt (name : string) (dim : nat).                              (* an external matrix basis (get_pauli_basis): element i is the atom name:i *)
+  | VExt (name : string) (dim : nat)                               (* an external matrix basis (get_pauli_basis): element i is the atom name:i *)
+  | VApp (f : string) (args : list pyv).                           (* result of an ORACLE call f(args) that is not modelled (numeric code); the formal
+                                                                      pure-state vector  a1 (x) a2 (x) ...  of named atoms is  VApp "kronvec" [VStr a1; VStr a2; ...] *)
 
 (* ---- strings *)
 Fixpoint chars (s : string) : list string := match s with EmptyString => [] | String c t => String c EmptyString :: chars t end.
@@ -173,6 +175,7 @@ Fixpoint kron_terms (t u : list fterm) : pres (list fterm) :=
 Definition np_kron (a b : pyv) : pres pyv :=
   match a, b with
   | VMat d t, VMat e u => pbind (kron_terms t u) (fun w => POk (VMat (d * e) w))
+  | VApp "kronvec" l, VApp "kronvec" m => POk (VApp "kronvec" (l ++ m)%list)
   | _, _ => type_error
   end.
 Definition lit_entry (v : pyv) : option (Z * Z) := match v with VInt z => Some (z, 0%Z) | VC r i => Some (r, i) | VBool b => Some ((if b then 1 else 0)%Z, 0%Z) | _ => None end.
@@ -275,6 +278,55 @@ Definition py_getitem_ext (a i : pyv) : pres pyv :=
   | VExt n d, VInt z => if (0 <=? z)%Z && (z <? Z.of_nat (d * d))%Z then POk (VMat d [(none_, [n ++ ":" ++ nat_string (Z.to_nat z)])]) else PErr "IndexError"
   | _, _ => py_getitem a i
   end.
+
+(* ---- catalogue list functions: itertools.product, str.join, list.extend / remove, comprehensions *)
+Fixpoint pmap {A B : Type} (f : A -> pres B) (l : list A) : pres (list B) :=
+  match l with [] => POk [] | x :: r => pbind (f x) (fun y => pbind (pmap f r) (fun ys => POk (y :: ys))) end.
+(* product(it_1, ..., it_k): tuples in lexicographic order, last factor fastest *)
+Fixpoint cart (ls : list (list pyv)) : list (list pyv) :=
+  match ls with [] => [[]] | l :: r => flat_map (fun a => map (cons a) (cart r)) l end.
+Definition py_product (args : pyv) : pres pyv :=
+  match args with
+  | VList its => pbind (pmap py_iter its) (fun ls => POk (VList (map VList (cart ls))))
+  | _ => type_error end.
+Definition py_product_repeat (it n : pyv) : pres pyv :=
+  match n with VInt z => pbind (py_iter it) (fun l => POk (VList (map VList (cart (repeat l (Z.to_nat z)))))) | _ => type_error end.
+Definition py_join (sep l : pyv) : pres pyv :=
+  match sep with
+  | VStr s => pbind (py_iter l) (fun items =>
+      match all_some (map (fun v => match v with VStr t => Some t | _ => None end) items) with
+      | Some strs => POk (VStr (String.concat s strs)) | None => type_error end)
+  | _ => type_error end.
+Definition py_extend (l x : pyv) : pres pyv :=
+  match l with VList m => pbind (py_iter x) (fun items => POk (VList (m ++ items)%list)) | _ => PErr "AttributeError" end.
+Fixpoint remove_first (x : pyv) (l : list pyv) : option (list pyv) :=
+  match l with [] => None | y :: r => if py_eqb x y then Some r else option_map (cons y) (remove_first x r) end.
+Definition py_remove (l x : pyv) : pres pyv :=
+  match l with VList m => match remove_first x m with Some m' => POk (VList m') | None => PErr "ValueError" end | _ => PErr "AttributeError" end.
+Definition is_strlist (r : pres pyv) (names : list string) : bool :=
+  match r with
+  | POk (VList l) => Nat.eqb (List.length l) (List.length names) &&
+                     forallb (fun p => match fst p with VStr s => String.eqb s (snd p) | _ => false end) (combine l names)
+  | _ => false end.
+(* name in [strings] *)
+Lemma py_in_strs n l : py_in (VStr n) (VList (map VStr l)) = POk (VBool (existsb (String.eqb n) l)).
+Proof. cbn [py_in]. f_equal. f_equal. induction l as [|x l IH]; [reflexivity|]. cbn [map existsb py_eqb]. now rewrite IH. Qed.
+
+(* ---- oracle calls: numeric functions that are not modelled; the dispatch around them is *)
+Fixpoint str_mem (x : string) (l : list string) : bool := match l with [] => false | y :: r => String.eqb x y || str_mem x r end.
+(* eval(name)() for a zero-argument vector function: the atom name, provided the module defines such a function *)
+Definition py_eval_opaque (tbl : list string) (name : pyv) : pres pyv :=
+  match name with VStr s => if str_mem s tbl then POk (VApp "kronvec" [VStr s]) else PErr "NameError" | _ => type_error end.
+(* f(arg) for a one-argument vector function: the atom f:arg *)
+Definition py_opaque_vec1 (f : string) (arg : pyv) : pres pyv :=
+  match arg with VStr s => POk (VApp "kronvec" [VStr (f ++ ":" ++ s)]) | _ => type_error end.
+Definition py_fstr (v : pyv) : pres pyv := match v with VStr _ => POk v | _ => PErr "Stuck" end.      (* {x} in an f-string, x a string *)
+Definition is_kronvec (r : pres pyv) (atoms : list string) : bool :=
+  match r with POk (VApp "kronvec" l) => Nat.eqb (List.length l) (List.length atoms) &&
+                                         forallb (fun p => match fst p with VStr s => String.eqb s (snd p) | _ => false end) (combine l atoms)
+  | _ => false end.
+Definition is_app1_kronvec (r : pres pyv) (f : string) (atoms : list string) : bool :=
+  match r with POk (VApp g [x]) => String.eqb f g && is_kronvec (POk x) atoms | _ => false end.
 
 (* ---- observations used by the equivalence theorems *)
 Definition fterm_eqb (a b : fterm) : bool :=
